@@ -237,3 +237,76 @@ func Lines[T any](stdout []byte) []T {
 	}
 	return res
 }
+
+// Kinds of variant used for tagged values: the same number travels as a different built-in type.
+var Kinds = []string{"int64", "uint32", "int32", "double", "string"}
+
+// Tagged encodes (number, kind index) into one integer for the trace: a value that comes
+// back with another type is a different value.
+func Tagged(v int64, kind int) int64 { return v*10 + int64(kind) }
+
+func variantOf(v int64, kind int) *ua.Variant {
+	switch kind {
+	case 1:
+		return ua.MustVariant(uint32(v))
+	case 2:
+		return ua.MustVariant(int32(v))
+	case 3:
+		return ua.MustVariant(float64(v))
+	case 4:
+		return ua.MustVariant(fmt.Sprintf("%d", v))
+	}
+	return ua.MustVariant(v)
+}
+
+// WriteKind writes number v as a variant of the given kind.
+func WriteKind(c *opcua.Client, node *ua.NodeID, v int64, kind int, timeout time.Duration) error {
+	ctx, cancel := context.WithTimeout(context.Background(), timeout)
+	defer cancel()
+	resp, err := c.Write(ctx, &ua.WriteRequest{NodesToWrite: []*ua.WriteValue{{
+		NodeID: node, AttributeID: ua.AttributeIDValue,
+		Value: &ua.DataValue{EncodingMask: ua.DataValueValue, Value: variantOf(v, kind)},
+	}}})
+	if err != nil {
+		return err
+	}
+	if len(resp.Results) != 1 || resp.Results[0] != ua.StatusOK {
+		return fmt.Errorf("write results %v", resp.Results)
+	}
+	return nil
+}
+
+// ReadTagged reads the Value attribute and returns Tagged(number, kind of the variant read).
+func ReadTagged(c *opcua.Client, node *ua.NodeID, timeout time.Duration) (int64, error) {
+	ctx, cancel := context.WithTimeout(context.Background(), timeout)
+	defer cancel()
+	resp, err := c.Read(ctx, &ua.ReadRequest{TimestampsToReturn: ua.TimestampsToReturnNeither,
+		NodesToRead: []*ua.ReadValueID{{NodeID: node, AttributeID: ua.AttributeIDValue, DataEncoding: &ua.QualifiedName{}}}})
+	if err != nil {
+		return 0, err
+	}
+	if len(resp.Results) != 1 {
+		return 0, fmt.Errorf("read: %d results", len(resp.Results))
+	}
+	r := resp.Results[0]
+	if r.Status != ua.StatusOK || r.Value == nil {
+		return 0, fmt.Errorf("read status %v", r.Status)
+	}
+	switch x := r.Value.Value().(type) {
+	case int64:
+		return Tagged(x, 0), nil
+	case uint32:
+		return Tagged(int64(x), 1), nil
+	case int32:
+		return Tagged(int64(x), 2), nil
+	case float64:
+		return Tagged(int64(x), 3), nil
+	case string:
+		var n int64
+		if _, err := fmt.Sscanf(x, "%d", &n); err != nil {
+			return 0, fmt.Errorf("read: string %q", x)
+		}
+		return Tagged(n, 4), nil
+	}
+	return 0, fmt.Errorf("read: value %T", r.Value.Value())
+}
